@@ -73,14 +73,15 @@ def h_dot(ctx, fn, lshape, rshape, kinds, D, P):
         ctx.eq(plain(y.data), Y, 'right operand unchanged')
 
 
-def h_trace(ctx, n, D, P):
+def h_trace(ctx, n, D, P, m=None):
     algopy = symx.load_algopy()
-    X = V(ctx, 'x', (D, P, n, n))
+    m = n if m is None else m
+    X = V(ctx, 'x', (D, P, n, m))
     z = algopy.trace(mk_utpm(ctx, algopy, X))
     Z = plain(z.data)
     for d in range(D):
         for p in range(P):
-            ctx.eq(Z[d, p], sum(X[d, p, i, i] for i in range(n)), 'trace[%d,%d]' % (d, p))
+            ctx.eq(Z[d, p], sum(X[d, p, i, i] for i in range(min(n, m))), 'trace[%d,%d]' % (d, p))
 
 
 def _nonsingular(ctx, A0):
@@ -246,6 +247,8 @@ def units(tier, seed):
         add('outer/(2,)x(3,)/%s/D%d,P%d' % (kinds, D, P), 'h_dot', fn='outer', lshape=(2,), rshape=(3,), kinds=kinds, D=D, P=P)
         add('outer/(2,)x(2,)/%s/D%d,P%d' % (kinds, D, P), 'h_dot', fn='outer', lshape=(2,), rshape=(2,), kinds=kinds, D=D, P=P)
     add('trace/3x3/D%d,P%d' % (D, P), 'h_trace', n=3, D=D, P=P)
+    for (n_, m_) in [(5, 2), (2, 5), (4, 1), (3, 2)]:
+        add('trace/%dx%d/D2,P2' % (n_, m_), 'h_trace', n=n_, m=m_, D=2, P=2)
     add('inv/2x2/D%d,P%d' % (D + 1, P), 'h_inv', n=2, D=D + 1, P=P)
     add('inv/3x3/D%d,P1' % (3 if tier == 'quick' else 4), 'h_inv', n=3, D=3 if tier == 'quick' else 4, P=1)
     for kinds in ('UU', 'NU', 'UN'):
@@ -256,6 +259,7 @@ def units(tier, seed):
     add('solve/3x3,k1/UU/D3,P1', 'h_solve', n=3, k=1, kinds='UU', D=3, P=1)
     for fn in ('det', 'logdet'):
         add('%s/2x2/D%d,P2' % (fn, D), 'h_det', n=2, D=D, P=2, fn=fn)
+        add('%s/2x2/D5,P1' % fn, 'h_det', n=2, D=5, P=1, fn=fn)
         add('%s/3x3/D%d,P1' % (fn, 3 if tier != 'quick' else 2), 'h_det', n=3, D=3 if tier != 'quick' else 2, P=1, fn=fn)
     add('det/1x1/D3,P2', 'h_det', n=1, D=3, P=2)
     add('expm/2x2/D2,P1', 'h_expm', o={'unit_timeout': 600}, n=2, D=2, P=1)
